@@ -365,6 +365,7 @@ func MetaDataKVHandler(resHolder *SearchResult, attrGetter AttributeGetter, addi
 		m, _ := convertFilterValue(fs[i].SearchFilter)
 		return fs[i].Header() == fs[0].Header() && m != object.MatchNotPresent && IsIntegerSearchOp(m) == intPrimMatcher
 	}
+	primFullScan := primMatcher == object.MatchCommonPrefix && prefixNeedsFullScan(fs[0].Header(), fs[0].Value())
 
 	return func(k, v []byte) bool {
 		defer func() {
@@ -416,7 +417,7 @@ func MetaDataKVHandler(resHolder *SearchResult, attrGetter AttributeGetter, addi
 					if i > 0 { // only the primary filter and upper bounds may end the scan
 						return mch != object.MatchNumLT && mch != object.MatchNumLE
 					}
-					if mch != object.MatchStringNotEqual && (wasPrimMatch || mch != object.MatchNumGT) {
+					if mch != object.MatchStringNotEqual && !primFullScan && (wasPrimMatch || mch != object.MatchNumGT) {
 						return false
 					}
 					return true
@@ -727,7 +728,8 @@ func PreprocessSearchQuery(fs object.SearchFilters, attrs []string, cursor strin
 	primMatcher, primVal := convertFilterValue(fs[0])
 	oidSorted := len(attrs) == 0 || primMatcher == object.MatchNotPresent
 	var primValDB []byte
-	if !oidSorted && cursor == "" && primMatcher != object.MatchStringNotEqual && !IsIntegerSearchOp(primMatcher) {
+	if !oidSorted && cursor == "" && primMatcher != object.MatchStringNotEqual && !IsIntegerSearchOp(primMatcher) &&
+		!(primMatcher == object.MatchCommonPrefix && prefixNeedsFullScan(fs[0].Header(), primVal)) {
 		switch attr := fs[0].Header(); attr {
 		default:
 			primValDB = []byte(primVal)
@@ -845,6 +847,28 @@ func PreprocessSearchQuery(fs object.SearchFilters, attrs []string, cursor strin
 		}
 	}
 	return ofs, &SearchCursor{PrimaryKeysPrefix: primKeysPrefix, PrimarySeekKey: primSeekKey}, nil
+}
+
+// prefixNeedsFullScan reports whether a COMMON_PREFIX value of a binary-stored attribute is not a complete value:
+// then it is not a prefix of the stored bytes (Base58) or cannot be decoded (odd HEX, partial UUID), and all values
+// of the attribute have to be checked in their string form.
+func prefixNeedsFullScan(attr, val string) bool {
+	switch attr {
+	case object.FilterOwnerID:
+		b, _ := base58.Decode(val)
+		return len(b) != user.IDSize
+	case object.FilterFirstSplitObject, object.FilterParentID, object.AttributeAssociatedObject:
+		b, _ := base58.Decode(val)
+		return len(b) != oid.Size
+	//nolint:staticcheck // see above
+	case object.FilterPayloadChecksum, object.FilterPayloadHomomorphicHash:
+		_, err := hex.DecodeString(val)
+		return err != nil
+	case object.FilterSplitID:
+		_, err := uuid.Parse(val)
+		return err != nil
+	}
+	return false
 }
 
 func hasIntFilters(fs object.SearchFilters) bool {
